@@ -113,6 +113,9 @@ class ExcelInPython:
     def _compare(self, operator: str, left_operand: str | int | float | datetime.date | datetime.datetime,
                           right_operand: str | int | float | datetime.date | datetime.datetime) -> bool:
         try:
+            # целочисленное сравнение допустимо только если приведение к int ничего не отбрасывает
+            if any(isinstance(i, float) and not i.is_integer() for i in (left_operand, right_operand)):
+                raise ValueError('the integer comparison would drop the fractional part')
             return self._by_operator(operator, int(left_operand), int(right_operand))
         except (ValueError, TypeError):
             try:
